@@ -5,7 +5,8 @@ parameter vector is driven (a) to every combination of uniform raw values from
 {0, -0.3, 0.2, 0.49, 0.51, -2.5, 1e30} per masker kind (features / receptive field / dilation) - this contains
 every combination "fully pruned vs open" of the three masks - and (b) to every abstract configuration within
 one deviation of "all open" plus the all-minimum corners, each realised with 4 different value representatives.
-Kernel family K with k in 1..12 and grammar programs incl. input- and output-connected layers.
+Kernel family K with k in 1..12 and grammar programs incl. input- and output-connected layers, plus three
+two-input networks in which a width group is tied to ONE of the inputs only.
 """
 import itertools
 
@@ -66,9 +67,140 @@ def cases(tier, seed):
         if G.structure_flags(p):
             continue
         out.append({'prog': p, 'fold_bn': False})
+    for m in TWOIN:
+        out.append({'kind': 'twoin', 'model': m})
     for c in out:
         c['tier'] = tier
     return out
+
+
+# ----------------------------------------------------------------------------------------------
+# networks with TWO inputs: width groups tied to ONE of the inputs only
+# ----------------------------------------------------------------------------------------------
+class _TwoInAdd(torch.nn.Module):
+    """relu(c1(a) + b): the width of c1 is fixed by input b (and by nothing else)"""
+    full = {'c1', 'fc'}
+
+    def __init__(self):
+        super().__init__()
+        nn = torch.nn
+        self.c1 = nn.Conv1d(3, 4, 3, padding='same')
+        self.c2 = nn.Conv1d(4, 3, 3, padding='same')
+        self.fc = nn.Linear(3 * 8, 2)
+
+    def forward(self, a, b):
+        y = torch.relu(self.c1(a) + b)
+        return self.fc(torch.flatten(torch.relu(self.c2(y)), 1))
+
+    @staticmethod
+    def inputs(g):
+        return torch.randn(3, 3, 8, generator=g), torch.randn(3, 4, 8, generator=g)
+
+
+class _TwoInDw(torch.nn.Module):
+    """cat(relu(dw(a)), relu(cb(b))): the depthwise conv sits directly on input a; cb is free"""
+    full = {'dw', 'fc'}
+
+    def __init__(self):
+        super().__init__()
+        nn = torch.nn
+        self.dw = nn.Conv1d(3, 3, 3, padding='same', groups=3)
+        self.cb = nn.Conv1d(2, 4, 3, padding='same')
+        self.c2 = nn.Conv1d(7, 3, 1)
+        self.fc = nn.Linear(3 * 8, 2)
+
+    def forward(self, a, b):
+        y = torch.cat([torch.relu(self.dw(a)), torch.relu(self.cb(b))], dim=1)
+        return self.fc(torch.flatten(torch.relu(self.c2(y)), 1))
+
+    @staticmethod
+    def inputs(g):
+        return torch.randn(3, 3, 8, generator=g), torch.randn(3, 2, 8, generator=g)
+
+
+class _TwoInFree(torch.nn.Module):
+    """relu(c1(a) + c2(b)): one shared, free width group fed by both inputs"""
+    full = {'fc'}
+
+    def __init__(self):
+        super().__init__()
+        nn = torch.nn
+        self.c1 = nn.Conv1d(3, 4, 3, padding='same')
+        self.c2 = nn.Conv1d(2, 4, 3, padding='same')
+        self.c3 = nn.Conv1d(4, 3, 3, padding='same')
+        self.fc = nn.Linear(3 * 8, 2)
+
+    def forward(self, a, b):
+        y = torch.relu(self.c1(a) + self.c2(b))
+        return self.fc(torch.flatten(torch.relu(self.c3(y)), 1))
+
+    @staticmethod
+    def inputs(g):
+        return torch.randn(3, 3, 8, generator=g), torch.randn(3, 2, 8, generator=g)
+
+
+TWOIN = {'add': _TwoInAdd, 'dw': _TwoInDw, 'free': _TwoInFree}
+
+
+class _Star:
+    """calls a two-input network on a tuple (so that the one-input oracle code can be re-used)"""
+    def __init__(self, net):
+        self.net = net
+
+    def __call__(self, xs):
+        return self.net(*xs)
+
+
+def _run_twoin(case, seed):
+    from plinio.methods import PIT
+    res = {'states': 0, 'transitions': 0, 'evals': 0, 'nontrivial': [], 'outcomes': set(), 'violations': []}
+    base_case = {k: v for k, v in case.items() if k != 'only'}
+    cls = TWOIN[case['model']]
+    torch.manual_seed(seed * 7 + 3)
+    model = cls().eval()
+    xs = cls.inputs(torch.Generator().manual_seed(seed + 11))
+    with torch.no_grad():
+        y0 = model(*xs)
+    ssig = 'two-in-' + case['model']
+    try:
+        pit = PIT(model, input_example=tuple(t[:1] for t in xs))
+    except Exception as e:
+        res.update(states=1, evals=1, outcomes=['conversion-raises'])
+        res['violations'].append({'kind': 'conversion-raises', 'sig': 'conversion-raises/' + ssig, 'msg': f'PIT() raised {type(e).__name__}: {e}', 'case': base_case})
+        return res
+    pit.eval()
+    fms, _ = _raw_handles(pit)
+    only = case.get('only')
+    labels = [{'uniform': v} for v in REPS]
+    for i in range(len(fms)):
+        for v in REPS_SMALL:
+            for u in (1.0, 0.0):
+                labels.append({'masker': i, 'value': v, 'others': u})
+
+    for label in labels:
+        if only is not None and only != label:
+            continue
+        with torch.no_grad():
+            for i, fm in enumerate(fms):
+                if 'uniform' in label:
+                    fm.alpha.fill_(label['uniform'])
+                else:
+                    fm.alpha.fill_(label['value'] if i == label['masker'] else label['others'])
+        res['states'] += 1
+        res['transitions'] += 1
+        res['evals'] += 1
+        bad = _check_state(pit, None, xs, y0, cls.full, star=True)
+        for kind, msg in bad:
+            res['outcomes'].add(kind)
+            res['violations'].append({'kind': kind, 'sig': f'{kind}/' + ssig, 'msg': f'{label}: {msg}', 'case': dict(base_case, only=label)})
+        if not bad:
+            res['outcomes'].add('alive')
+        v = label.get('uniform', label.get('value'))
+        if abs(v) <= 0.5:
+            res['nontrivial'].append(f'{ssig}/{sorted(label.items())}')
+    res['outcomes'] = sorted(res['outcomes'])
+    res['sample'] = {'model': case['model'], 'doc': cls.__doc__, 'feature_maskers': len(fms), 'full_width_layers': sorted(cls.full), 'labels': len(labels)}
+    return res
 
 
 def _raw_handles(pit):
@@ -89,7 +221,7 @@ def _raw_handles(pit):
     return fms, tms
 
 
-def _check_state(pit, prog, x, y0, full):
+def _check_state(pit, prog, x, y0, full, star=False):
     """-> list of (kind, msg)"""
     bad = []
     try:
@@ -115,7 +247,7 @@ def _check_state(pit, prog, x, y0, full):
         return bad
     try:
         with torch.no_grad():
-            y = exp(x)
+            y = exp(*x) if star else exp(x)
         if tuple(y.shape) != tuple(y0.shape):
             bad.append(('output-shape-changed', f'exported network returns {tuple(y.shape)}, original {tuple(y0.shape)}'))
     except Exception as e:
@@ -127,6 +259,8 @@ def _check_state(pit, prog, x, y0, full):
 
 
 def run_case(case, seed):
+    if case.get('kind') == 'twoin':
+        return _run_twoin(case, seed)
     prog, fold = case['prog'], case['fold_bn']
     tier = case.get('tier', 'quick')
     b = bounds(tier)
